@@ -733,10 +733,13 @@ def header_start_model(facts):
             yield fn, 'nothing there', 'unanalysable: not found'
             continue
         b = facts.body(d)
-        for case in ('nothing there', 'a header-implied table there'):
-            existing = ('ctor', NONE) if case == 'nothing there' else ('ctor', SOME, (('ctor', I + 'Table', (T(True, False, 'adopted'),)),))
-            aot = ('ctor', I + 'ArrayOfTables', (('struct', 'toml_edit::array_of_tables::ArrayOfTables', {'values': VecObj([])}),))
-            it = RecInterp(Evaluator(facts), set(), {'descend_path'}, stubs={'remove': existing, 'or_insert': aot})
+        for case in ('nothing there', 'a header-implied table there', 'an explicit table there', 'an array of tables there', 'a value there'):
+            under = {'nothing there': None, 'a header-implied table there': ('ctor', I + 'Table', (T(True, False, 'adopted'),)), 'an explicit table there': ('ctor', I + 'Table', (T(False, False, 'other'),)),
+                     'an array of tables there': ('ctor', I + 'ArrayOfTables', (('struct', 'toml_edit::array_of_tables::ArrayOfTables', {'values': VecObj([('ctor', I + 'Table', (T(False, False, 'first'),))])}),)),
+                     'a value there': ('ctor', I + 'Value', (('opaque',),))}[case]
+            existing = ('ctor', NONE) if under is None else ('ctor', SOME, (under,))
+            aot = under if under is not None else ('ctor', I + 'ArrayOfTables', (('struct', 'toml_edit::array_of_tables::ArrayOfTables', {'values': VecObj([])}),))
+            it = RecInterp(Evaluator(facts), set(), {'descend_path', 'duplicate_key'}, stubs={'remove': existing, 'or_insert': aot})
             path = VecObj([('struct', 'toml_edit::key::Key', {'key': 'a'}), ('struct', 'toml_edit::key::Key', {'key': 'b'})])
             try:
                 st = _parse_state(facts, it, T)
